@@ -38,13 +38,16 @@ func b64dec(s string) ([]byte, error) { return base64.RawURLEncoding.DecodeStrin
 type command func(args []string)
 
 var commands = map[string]command{
-	"applier-replay":  applierReplay,
-	"applier-trace":   applierTrace,
-	"composer-replay": composerReplay,
-	"composer-trace":  composerTrace,
-	"rules-replay":    rulesReplay,
-	"rules-trace":     rulesTrace,
-	"guard-replay":    guardReplay,
+	"applier-replay":      applierReplay,
+	"applier-trace":       applierTrace,
+	"composer-replay":     composerReplay,
+	"composer-trace":      composerTrace,
+	"rules-replay":        rulesReplay,
+	"rules-trace":         rulesTrace,
+	"guard-replay":        guardReplay,
+	"roundtrip-replay":    roundtripReplay,
+	"constructors-replay": constructorsReplay,
+	"codec-replay":        codecReplay,
 }
 
 func main() {
